@@ -713,11 +713,10 @@ def _step_cfg(cfg, k):
 
 
 def _assign_history(cs, h):
-    """in-place assignment of every history setting that differs (absent = the setting's default)."""
+    """in-place assignment of every history setting (absent = the setting's default); reading a simple
+    history setting back is refused by Settings while detailed cycles are entered, so nothing is compared."""
     for key in HIST_KEYS:
-        val = h[key] if key in h else cs.getSetting(key).default
-        if cs[key] != val:
-            cs[key] = val
+        cs[key] = h[key] if key in h else cs.getSetting(key).default
 
 
 def _execute_reuse(cfg):
@@ -794,6 +793,13 @@ def _reuse_configs(ctx, power):
     valid = [h for h in hs if not ref_history(dict(other, **h))[1]]
     core_set = [hs[0]] + [h for h in valid if h.get("burnSteps") == 3 or h.get("nCycles") == 3][:3] + [h for h in hs if h not in valid][:1] + [h for h in valid if h.get("cycles")][:1]
     out = []
+    # one representative history per node layout (steps per cycle): the operator run after a change is
+    # made for these targets in quick (conversions are asked after EVERY change), for every target in thorough
+    layouts = {}
+    for h in valid:
+        layouts.setdefault(tuple(len(c["steps"]) for c in ref_history(dict(other, **h))[0]), h)
+    run_set = list(layouts.values()) if ctx.quick else valid
+    copy_set = core_set if ctx.quick else hs
 
     def add(mode, seq, run):
         out.append({"kind": "reuse", "mode": mode, "seq": list(seq), "other": other, "run": run, "settings": dict(other, **seq[-1]), "stack": _PLAIN_STACK, "devs": [["reuse", mode, len(seq)]], "ndev": -3})
@@ -801,14 +807,15 @@ def _reuse_configs(ctx, power):
     for a in hs:
         for b in hs:
             if a is not b:
-                add("inplace", [a, b], b in valid)  # one operator run on the re-used object after the change
-                add("modified", [a, b], False)
+                add("inplace", [a, b], any(b is x for x in run_set))
+                if any(a is x for x in copy_set) or any(b is x for x in copy_set):
+                    add("modified", [a, b], False)
     third = core_set if ctx.quick else hs
-    for a in (core_set if ctx.quick else hs):
+    for a in third:
         for b in third:
             for c in third:
                 if a is not b and b is not c:  # c may be a again: back to an earlier history
-                    add("inplace", [a, b, c], (not ctx.quick) and c in valid)
+                    add("inplace", [a, b, c], (not ctx.quick) and any(c is x for x in valid))
     return out
 
 
@@ -1135,6 +1142,8 @@ def run(ctx):
         dimensions={d: [BASE[d]] + list(a) for d, a in ALTS.items()},
         secondary_bases=SECONDARY,
         distinct_observed_traces=len(digests),
+        settings_reuse_sequences=sum(1 for c in cfgs if c.get("kind") == "reuse"),
+        settings_reuse_histories=len(_histories(1.0e6)),
     )
     ctx.assumptions += [
         "configurations = all combinations of <= %d deviations (listed in coverage.dimensions) from the plain 2-cycle/2-step 3-interface stack, <= %d from each secondary base%s; combinations that do not denote a configuration (per-cycle step counts in the simple input, restart point beyond the last node, zero availability with explicit at-power days) are not runs"
@@ -1143,4 +1152,5 @@ def run(ctx):
         "fields a hook may see that the property does not fix (step length at the last node of a cycle, power outside node events, coupled-iteration counter outside BOC/Coupled) are unconstrained in the reference",
         "deferred = not called at BOL nor at BOC before deferredInterfacesCycle (the documented and upstream-tested meaning); every-node/EOC/EOL hooks of deferred interfaces run",
         "floating-point comparisons (step lengths, power, cycle length) relative 1e-10",
+        "settings re-use search: one Settings object per sequence of 2 (all ordered pairs of 30 histories) or 3 (quick: 6 representative histories, thorough: all) histories assigned in place, every conversion helper asked after every change and judged against the reference expansion of the CURRENT history, an operator run on the re-used object after the last change (quick: targets of each distinct node layout, thorough: every consistent target); cs.modified copies of a used object are judged for copy and source. A new Operator is built per run: changing settings under a live Operator is outside the property",
     ]
